@@ -610,6 +610,30 @@ func (e *env) main(inClose, closeReturned *bool) {
 		comps = append(comps, s)
 		compIDs = append(compIDs, sc.ID)
 	}
+	// hand-wired points: the application has set them to the raw target before Run
+	{
+		w := model.NewWorld(p, EffectiveCfg(p))
+		for _, inst := range p.Instances {
+			t := p.TypeByName(inst.Type)
+			if !inst.Prewired || t.Zero {
+				continue
+			}
+			for _, pt := range t.Points {
+				if !pt.Single() {
+					continue
+				}
+				r := w.Resolve(inst, pt)
+				if r.Exact == "" || r.DontCare || e.objs[r.Exact] == nil {
+					continue
+				}
+				f := fieldAt(e.objs[inst.ID], t.Name, pt.Embed, pt.GoName())
+				tv := reflect.ValueOf(e.objs[r.Exact])
+				if f.IsValid() && tv.Type().AssignableTo(f.Type()) {
+					f.Set(tv)
+				}
+			}
+		}
+	}
 	// registration order
 	var perm []int
 	if spec.ForceOrd == simrt.OrdReversed {
